@@ -366,7 +366,7 @@ fn format_expression_internal(
     }
 }
 
-/// Determines whether the provided [`Expression`] is a brackets string, i.e. `[[string]]`
+/// Determines whether the provided [`Expression`] is (or starts with) a brackets string, i.e. `[[string]]`
 /// We care about this because `[ [[string] ]` is invalid syntax if we remove the whitespace
 pub fn is_brackets_string(expression: &Expression) -> bool {
     match expression {
@@ -377,6 +377,10 @@ pub fn is_brackets_string(expression: &Expression) -> bool {
                 ..
             }
         ),
+        // The formatted expression starts with whatever its leftmost part starts with:
+        // `[ [[a]] .. b ]` and `[ ([[a]]) ]` (where the parentheses will be removed) need the space as well
+        Expression::Parentheses { expression, .. } => is_brackets_string(expression),
+        Expression::BinaryOperator { lhs, .. } => is_brackets_string(lhs),
         #[cfg(feature = "luau")]
         Expression::TypeAssertion { expression, .. } => is_brackets_string(expression),
         _ => false,
